@@ -577,3 +577,360 @@ Section LoopReplay.
           intros Hne. apply Forall_app. split; [apply noop_members, Hn1; discriminate|now apply Hn].
   Qed.
 End LoopReplay.
+
+(** * Layer 4: the whole pass replayed on its own output world *)
+Section PassReplay.
+  Variable force : bool.
+  Let c : cfg := {| c_flavor := FObjectSet; c_force := force |}.
+
+  (** the in-memory copy [m] is the stored set [st], possibly with a revision number computed in memory *)
+  Definition same_but_rev (m st : oset) : Prop :=
+    spec_eq m st /\ os_rv m = os_rv st /\ os_conds m = os_conds st /\ os_ctrlof m = os_ctrlof st /\ os_remotes m = os_remotes st.
+
+  Lemma same_but_rev_refl m : same_but_rev m m.
+  Proof. split; [apply spec_eq_refl|auto]. Qed.
+
+  (** ** what the pass reads of its in-memory copy *)
+  Lemma as_owner_ext a b : spec_eq a b -> os_revision a = os_revision b -> as_owner a = as_owner b.
+  Proof. intros (Hi&_&_&_&_&Hp&Hl&_) Hr. unfold as_owner. now rewrite Hi, Hr, Hl, Hp. Qed.
+
+  Lemma desired_phase_ext a b ph : spec_eq a b -> os_revision a = os_revision b -> desired_phase a ph = desired_phase b ph.
+  Proof. intros (Hi&_&_&_&_&Hp&Hl&_&Hpr) Hr. unfold desired_phase, phase_kind. now rewrite Hi, Hr, Hl, Hp, Hpr. Qed.
+
+  Lemma lookup_prev_ext sets a b : spec_eq a b -> lookup_prev sets a = lookup_prev sets b.
+  Proof. intros (Hi&_&_&_&_&_&_&_&Hpr). unfold lookup_prev. now rewrite Hi, Hpr. Qed.
+
+  Lemma spec_keys_ext a b : spec_eq a b -> map (spec_key a) (all_objects a) = map (spec_key b) (all_objects b).
+  Proof.
+    intros (Hi&_&_&_&_&_&_&Hph&_). unfold all_objects. rewrite Hph. apply map_ext. intros p.
+    unfold spec_key, as_owner, desired_key. cbn. now rewrite Hi.
+  Qed.
+
+  Lemma paused_reads_ext phs a b : os_id a = os_id b -> os_remotes a = os_remotes b -> paused_reads phs a = paused_reads phs b.
+  Proof. intros Hi Hr. unfold paused_reads, phase_kind. now rewrite Hi, Hr. Qed.
+
+  (** ** the fields of the computed status *)
+  Lemma final_status_fields phs m ctrlof failed :
+    spec_eq (final_status phs m ctrlof failed) m /\ os_rv (final_status phs m ctrlof failed) = os_rv m /\
+    os_revision (final_status phs m ctrlof failed) = os_revision m /\
+    os_ctrlof (final_status phs m ctrlof failed) = ctrlof /\
+    os_remotes (final_status phs m ctrlof failed) = os_remotes m /\
+    find_cond (os_conds (final_status phs m ctrlof failed)) CArchived = find_cond (os_conds m) CArchived.
+  Proof.
+    split; [repeat split|]. split; [reflexivity|]. split; [reflexivity|]. split; [reflexivity|]. split; [reflexivity|].
+    unfold final_status. cbn [os_conds set_conds]. rewrite paused_cond_other by discriminate. cbn [os_conds set_conds set_ctrlof].
+    assert (H1 : forall b x, find_cond (if b : bool then set_cond (os_conds m) (mk_cond x CInTransition STrue RInTransition)
+                                      else remove_cond (os_conds m) CInTransition) CArchived = find_cond (os_conds m) CArchived).
+    { intros [|] x; [apply find_set_cond_other; cbn; discriminate|apply find_remove_cond_other; discriminate]. }
+    destruct failed.
+    - rewrite find_set_cond_other by (cbn; discriminate). apply H1.
+    - match goal with |- context [if negb ?b && ?b2 then _ else _] => destruct (negb b && b2) end.
+      + rewrite !find_set_cond_other by (cbn; discriminate). apply H1.
+      + rewrite find_set_cond_other by (cbn; discriminate). apply H1.
+  Qed.
+
+  (** the Available=False report of an aborted pass *)
+  Definition fail_status (m : oset) (r : creason) : oset :=
+    set_conds m (set_cond (os_conds m) (mk_cond m CAvailable SFalse r)).
+
+  (** ** the events of a pass that changed nothing *)
+  Definition quiet_sev (st : oset) (e : sev) : Prop :=
+    match e with
+    | SMember x => calm_ev x
+    | SPhase (PGet _ _) => True
+    | SMeta (MStatus rev conds ctrlof rem _ ok) =>
+        ok = true /\ rev = os_revision st /\ conds = os_conds st /\ ctrlof = os_ctrlof st /\ rem = os_remotes st
+    | _ => False
+    end.
+  (** ... whose member requests moreover were all accepted: no-op applies *)
+  Definition noop_sev (st : oset) (e : sev) : Prop :=
+    match e with
+    | SMember x => noop_ev x
+    | SPhase (PGet _ _) => True
+    | SMeta (MStatus rev conds ctrlof rem _ ok) =>
+        ok = true /\ rev = os_revision st /\ conds = os_conds st /\ ctrlof = os_ctrlof st /\ rem = os_remotes st
+    | _ => False
+    end.
+
+  Lemma quiet_lev_sev st l : Forall quiet_lev l -> Forall (quiet_sev st) l.
+  Proof. apply Forall_impl. intros [x|m|[]]; cbn; tauto. Qed.
+  Lemma noop_lev_sev st l : Forall noop_lev l -> Forall (noop_sev st) l.
+  Proof. apply Forall_impl. intros [x|m|[]]; cbn; tauto. Qed.
+  Lemma paused_reads_quiet st phs m : Forall (quiet_sev st) (paused_reads phs m) /\ Forall (noop_sev st) (paused_reads phs m).
+  Proof.
+    unfold paused_reads. generalize (os_remotes m). intros refs. induction refs as [|x xs [IH1 IH2]]; cbn; [split; constructor|].
+    destruct (find_phase phs _ _ (fst x)); split; constructor; try exact I; try assumption; constructor.
+  Qed.
+
+  (** ** the pass after the revision is known *)
+  Definition fail_tail (sw : sworld) (pevs : list sev) (m : oset) (reason : creason) : sworld * list sev * sres :=
+    let '(sw'', _, ok) := update_status sw (fail_status m reason) in
+    (sw'', pevs ++ [status_ev (fail_status m reason) ok], if ok then SDone true else SError).
+  Definition ok_tail (sw : sworld) (pevs : list sev) (m : oset) (ctrlof : list okey) (failed : option N) : sworld * list sev * sres :=
+    let '(sw3, _, ok) := update_status sw (final_status (sw_phases sw) m ctrlof failed) in
+    (sw3, pevs ++ paused_reads (sw_phases sw) m ++ [status_ev_f (final_status (sw_phases sw) m ctrlof failed) failed ok],
+     if ok then SDone false else SError).
+  Definition loop_tail (pr : mres) (sw : sworld) (pevs : list sev) (m : oset) : sworld * list sev * sres :=
+    match pr with
+    | MPreflight => fail_tail sw pevs m RPreflightError
+    | MErr ErrNotPrevious | MErr ErrRevCollision => fail_tail sw pevs m RCollisionDetected
+    | MErr _ | MRemoteErr => (sw, pevs, SError)
+    | MOk ctrlof failed => ok_tail sw pevs m ctrlof failed
+    end.
+  Definition body_go (sw1 : sworld) (mem1 : oset) : sworld * list sev * sres :=
+    if Nat.ltb 0 (dup_count [] (map (spec_key mem1) (all_objects mem1))) then fail_tail sw1 [] mem1 RPreflightError else
+    let '(sw2, pevs, rem, pr) :=
+      reconcile_phases_m force sw1 mem1 (as_owner mem1) (lookup_prev (sw_sets sw1) mem1) (os_phases mem1) [] (os_remotes mem1) in
+    loop_tail pr sw2 pevs (set_remotes mem1 rem).
+
+  Lemma active_body_go sw0 evs0 mem sw1 evs1 mem1 :
+    revision_pass sw0 mem = (sw1, evs1, mem1, RevGo) ->
+    active_body force sw0 evs0 mem = let '(sw', evs, r) := body_go sw1 mem1 in (sw', (evs0 ++ evs1) ++ evs, r).
+  Proof.
+    intros H. unfold active_body, body_go, loop_tail, fail_tail, ok_tail, fail_status. rewrite H. cbv zeta.
+    destruct (Nat.ltb 0 _).
+    - destruct (update_status _ _) as [[? ?] ?]. reflexivity.
+    - destruct (reconcile_phases_m _ _ _ _ _ _ _ _) as [[[sw2 pevs] rem] pr].
+      destruct pr as [e| | |ctrlof failed]; [destruct e| | |];
+        repeat match goal with |- context [update_status ?a ?b] => destruct (update_status a b) as [[? ?] ?] end;
+        rewrite <- ?app_assoc; reflexivity.
+  Qed.
+
+  (** ** a status write pinned to the stored version, and the same status sent again *)
+  Lemma write_then_noop sw m st sw' mx ok :
+    find_set (sw_sets sw) (oi_kind (os_id m)) (oi_ns (os_id m)) (oi_name (os_id m)) = Some st ->
+    os_rv st = os_rv m -> spec_eq m st -> os_remotes m = os_remotes st ->
+    update_status sw m = (sw', mx, ok) ->
+    ok = true /\ w_store (sw_w sw') = w_store (sw_w sw) /\ sw_phases sw' = sw_phases sw /\ sw_nss sw' = sw_nss sw /\
+    exists st', find_set (sw_sets sw') (oi_kind (os_id m)) (oi_ns (os_id m)) (oi_name (os_id m)) = Some st' /\
+      spec_eq st' st /\ stat_eq st' m /\
+      (forall x, lookup_prev (sw_sets sw') x = lookup_prev (sw_sets sw) x) /\
+      forall m2, os_id m2 = os_id m -> os_rv m2 = os_rv st' -> stat_eq m2 m -> update_status sw' m2 = (sw', m2, true).
+  Proof.
+    intros Hf Hrv Hsp Hrm Hu. pose proof Hsp as (Hid & _).
+    destruct (update_status_post sw m st sw' mx ok Hf Hrv Hid Hu) as (Hok & Hst & Hph & Hns & st' & Hf' & Hsp' & Hstat & Hlp).
+    split; [exact Hok|]. split; [exact Hst|]. split; [exact Hph|]. split; [exact Hns|].
+    exists st'. split; [exact Hf'|]. split; [exact Hsp'|]. split; [exact Hstat|]. split; [intros x; apply Hlp; now left|].
+    intros m2 Hid2 Hrv2 Hs2. apply (update_status_noop sw' m2 st'); [now rewrite Hid2|now symmetry|].
+    eapply stat_eq_trans; [exact Hstat|]. now apply stat_eq_sym.
+  Qed.
+
+  (** the Available=False report, written and then computed again from what was stored *)
+  Lemma fail_replay sw2 m st reason pevs sw3 evs r :
+    find_set (sw_sets sw2) (oi_kind (os_id m)) (oi_ns (os_id m)) (oi_name (os_id m)) = Some st ->
+    os_rv st = os_rv m -> spec_eq m st -> os_remotes m = os_remotes st ->
+    fail_tail sw2 pevs m reason = (sw3, evs, r) ->
+    r = SDone true /\ w_store (sw_w sw3) = w_store (sw_w sw2) /\ sw_phases sw3 = sw_phases sw2 /\ sw_nss sw3 = sw_nss sw2 /\
+    exists st', find_set (sw_sets sw3) (oi_kind (os_id m)) (oi_ns (os_id m)) (oi_name (os_id m)) = Some st' /\
+      spec_eq st' st /\ stat_eq st' (fail_status m reason) /\
+      (forall x, lookup_prev (sw_sets sw3) x = lookup_prev (sw_sets sw2) x) /\
+      forall m2 pevs2, same_but_rev m2 st' -> os_revision m2 = os_revision m ->
+        fail_tail sw3 pevs2 m2 reason = (sw3, pevs2 ++ [status_ev (fail_status m2 reason) true], SDone true) /\
+        quiet_sev st' (status_ev (fail_status m2 reason) true) /\ noop_sev st' (status_ev (fail_status m2 reason) true).
+  Proof.
+    intros Hf Hrv Hsp Hrm. unfold fail_tail.
+    destruct (update_status sw2 (fail_status m reason)) as [[swx mx] ok] eqn:Eu. intros H. injection H as <- <- <-.
+    destruct (write_then_noop sw2 (fail_status m reason) st swx mx ok Hf Hrv Hsp Hrm Eu)
+      as (-> & Hst & Hph & Hns & st' & Hf' & Hsp' & Hstat & Hlp & Hnoop).
+    split; [reflexivity|]. split; [exact Hst|]. split; [exact Hph|]. split; [exact Hns|].
+    exists st'. split; [exact Hf'|]. split; [exact Hsp'|]. split; [exact Hstat|]. split; [exact Hlp|].
+    intros m2 pevs2 (Hsp2 & Hrv2 & Hcd2 & Hct2 & Hrm2) Hrev2.
+    destruct Hstat as (Hs1 & Hs2 & Hs3 & Hs4). cbn [fail_status os_revision os_conds os_ctrlof os_remotes set_conds] in Hs1, Hs2, Hs3, Hs4.
+    assert (Hgen : os_gen m2 = os_gen m).
+    { destruct Hsp2 as (_&Hg2&_), Hsp' as (_&Hg'&_), Hsp as (_&Hg&_). congruence. }
+    assert (Hid2 : os_id m2 = os_id m).
+    { destruct Hsp2 as (Hi2&_), Hsp' as (Hi'&_), Hsp as (Hi&_). congruence. }
+    assert (Hcf : os_conds (fail_status m2 reason) = os_conds st').
+    { cbn [fail_status os_conds set_conds]. rewrite Hcd2, Hs2, (mk_cond_gen m2 m) by exact Hgen. apply set_cond_idem. }
+    assert (Hse : stat_eq (fail_status m2 reason) (fail_status m reason)).
+    { split; [cbn; congruence|]. split; [rewrite Hcf; exact Hs2|]. split; cbn; congruence. }
+    rewrite (Hnoop (fail_status m2 reason) Hid2 Hrv2 Hse).
+    split; [reflexivity|].
+    assert (Hq : true = true /\ os_revision (fail_status m2 reason) = os_revision st' /\ os_conds (fail_status m2 reason) = os_conds st' /\
+                 os_ctrlof (fail_status m2 reason) = os_ctrlof st' /\ os_remotes (fail_status m2 reason) = os_remotes st').
+    { split; [reflexivity|]. split; [cbn; congruence|]. split; [exact Hcf|]. split; cbn; congruence. }
+    split; exact Hq.
+  Qed.
+
+  (** ** hypotheses on the world: well-formed stored members; delegated phases that need no write *)
+  Definition members_wf (sw : sworld) (mem : oset) : Prop :=
+    forall ph p cu, In ph (os_phases mem) -> ph_class ph = false -> In p (ph_objects ph) ->
+      lookup (key_of (as_owner mem) p) (w_store (sw_w sw)) = Some cu -> obj_wf Native (os_id mem) cu.
+  Definition remotes_ready (sw : sworld) (mem : oset) : Prop :=
+    forall ph, In ph (os_phases mem) -> ph_class ph = true -> remote_ready (sw_phases sw) mem (os_remotes mem) ph.
+  (** the status after a loop that returned, written and then computed again from what was stored *)
+  Lemma ok_replay sw2 m st ctrlof failed pevs sw3 evs r :
+    find_set (sw_sets sw2) (oi_kind (os_id m)) (oi_ns (os_id m)) (oi_name (os_id m)) = Some st ->
+    os_rv st = os_rv m -> spec_eq m st -> os_remotes m = os_remotes st ->
+    ok_tail sw2 pevs m ctrlof failed = (sw3, evs, r) ->
+    r = SDone false /\ w_store (sw_w sw3) = w_store (sw_w sw2) /\ sw_phases sw3 = sw_phases sw2 /\ sw_nss sw3 = sw_nss sw2 /\
+    exists st', find_set (sw_sets sw3) (oi_kind (os_id m)) (oi_ns (os_id m)) (oi_name (os_id m)) = Some st' /\
+      spec_eq st' st /\ stat_eq st' (final_status (sw_phases sw2) m ctrlof failed) /\
+      (forall x, lookup_prev (sw_sets sw3) x = lookup_prev (sw_sets sw2) x) /\
+      forall m2 pevs2, same_but_rev m2 st' -> os_revision m2 = os_revision m ->
+        ok_tail sw3 pevs2 m2 ctrlof failed =
+        (sw3, pevs2 ++ paused_reads (sw_phases sw3) m2 ++ [status_ev_f (final_status (sw_phases sw3) m2 ctrlof failed) failed true], SDone false) /\
+        quiet_sev st' (status_ev_f (final_status (sw_phases sw3) m2 ctrlof failed) failed true) /\
+        noop_sev st' (status_ev_f (final_status (sw_phases sw3) m2 ctrlof failed) failed true).
+  Proof.
+    intros Hf Hrv Hsp Hrm. unfold ok_tail.
+    set (F := final_status (sw_phases sw2) m ctrlof failed).
+    destruct (final_status_fields (sw_phases sw2) m ctrlof failed) as (HFsp & HFrv & HFrev & HFct & HFrm & _). fold F in HFsp, HFrv, HFrev, HFct, HFrm.
+    destruct (update_status sw2 F) as [[swx mx] ok] eqn:Eu. intros H. injection H as <- <- <-.
+    assert (HfF : find_set (sw_sets sw2) (oi_kind (os_id F)) (oi_ns (os_id F)) (oi_name (os_id F)) = Some st) by exact Hf.
+    destruct (write_then_noop sw2 F st swx mx ok HfF (eq_trans Hrv (eq_sym HFrv)) (spec_eq_trans _ _ _ HFsp Hsp) (eq_trans HFrm Hrm) Eu)
+      as (-> & Hst & Hph & Hns & st' & Hf' & Hsp' & Hstat & Hlp & Hnoop).
+    split; [reflexivity|]. split; [exact Hst|]. split; [exact Hph|]. split; [exact Hns|].
+    exists st'. split; [exact Hf'|]. split; [exact Hsp'|]. split; [exact Hstat|]. split; [exact Hlp|].
+    intros m2 pevs2 (Hsp2 & Hrv2 & Hcd2 & Hct2 & Hrm2) Hrev2. rewrite Hph.
+    destruct Hstat as (Hs1 & Hs2 & Hs3 & Hs4).
+    assert (Hs : spec_eq m2 m).
+    { eapply spec_eq_trans; [exact Hsp2|]. eapply spec_eq_trans; [exact Hsp'|]. now apply spec_eq_sym. }
+    destruct Hs as (Hi & Hg & _ & _ & _ & _ & Hl & Hp & _).
+    set (F2 := final_status (sw_phases sw2) m2 ctrlof failed).
+    destruct (final_status_fields (sw_phases sw2) m2 ctrlof failed) as (_ & HF2rv & HF2rev & HF2ct & HF2rm & _).
+    fold F2 in HF2rv, HF2rev, HF2ct, HF2rm.
+    assert (Hcf : os_conds F2 = os_conds m2).
+    { apply (final_status_fix (sw_phases sw2) m m2 ctrlof failed); try assumption; [congruence|]. fold F. congruence. }
+    assert (Hse : stat_eq F2 F) by (repeat split; congruence).
+    assert (HidF : os_id F2 = os_id F) by exact Hi.
+    rewrite (Hnoop F2 HidF (eq_trans HF2rv Hrv2) Hse).
+    split; [reflexivity|].
+    assert (Hq : true = true /\ os_revision F2 = os_revision st' /\ os_conds F2 = os_conds st' /\
+                 os_ctrlof F2 = os_ctrlof st' /\ os_remotes F2 = os_remotes st') by (repeat split; congruence).
+    split; exact Hq.
+  Qed.
+
+  (** ** what follows the phase loop, replayed *)
+  Lemma loop_tail_replay pr sw2 pevs m st sw3 evs r :
+    find_set (sw_sets sw2) (oi_kind (os_id m)) (oi_ns (os_id m)) (oi_name (os_id m)) = Some st ->
+    same_but_rev m st ->
+    loop_tail pr sw2 pevs m = (sw3, evs, r) ->
+    w_store (sw_w sw3) = w_store (sw_w sw2) /\ sw_phases sw3 = sw_phases sw2 /\
+    exists st', find_set (sw_sets sw3) (oi_kind (os_id m)) (oi_ns (os_id m)) (oi_name (os_id m)) = Some st' /\
+      spec_eq st' st /\ find_cond (os_conds st') CArchived = find_cond (os_conds st) CArchived /\
+      (st' = st \/ os_revision st' = os_revision m) /\ os_remotes st' = os_remotes m /\
+      (forall x, lookup_prev (sw_sets sw3) x = lookup_prev (sw_sets sw2) x) /\
+      forall m2 pevs2, same_but_rev m2 st' -> os_revision m2 = os_revision m ->
+        exists tl, loop_tail pr sw3 pevs2 m2 = (sw3, pevs2 ++ tl, r) /\
+                   Forall (quiet_sev st') tl /\ Forall (noop_sev st') tl.
+  Proof.
+    intros Hf (Hsp & Hrv & Hcd & Hct & Hrm).
+    assert (Gfail : forall reason, fail_tail sw2 pevs m reason = (sw3, evs, r) ->
+              w_store (sw_w sw3) = w_store (sw_w sw2) /\ sw_phases sw3 = sw_phases sw2 /\
+              exists st', find_set (sw_sets sw3) (oi_kind (os_id m)) (oi_ns (os_id m)) (oi_name (os_id m)) = Some st' /\
+                spec_eq st' st /\ find_cond (os_conds st') CArchived = find_cond (os_conds st) CArchived /\
+                (st' = st \/ os_revision st' = os_revision m) /\ os_remotes st' = os_remotes m /\
+                (forall x, lookup_prev (sw_sets sw3) x = lookup_prev (sw_sets sw2) x) /\
+                forall m2 pevs2, same_but_rev m2 st' -> os_revision m2 = os_revision m ->
+                  exists tl, fail_tail sw3 pevs2 m2 reason = (sw3, pevs2 ++ tl, r) /\
+                             Forall (quiet_sev st') tl /\ Forall (noop_sev st') tl).
+    { intros reason H.
+      destruct (fail_replay sw2 m st reason pevs sw3 evs r Hf (eq_sym Hrv) Hsp Hrm H)
+        as (-> & Hst & Hph & Hns & st' & Hf' & Hsp' & Hstat & Hlp & Hagain).
+      split; [exact Hst|]. split; [exact Hph|].
+      exists st'. split; [exact Hf'|]. split; [exact Hsp'|].
+      split. { destruct Hstat as (_ & -> & _). cbn [fail_status os_conds set_conds]. rewrite find_set_cond_other by (cbn; discriminate). now rewrite Hcd. }
+      split. { right. now destruct Hstat as (-> & _). }
+      split. { now destruct Hstat as (_ & _ & _ & ->). }
+      split; [exact Hlp|].
+      intros m2 pevs2 Hm2 Hrev2. destruct (Hagain m2 pevs2 Hm2 Hrev2) as (Hrun & Hq & Hn).
+      eexists. split; [exact Hrun|]. split; (constructor; [assumption|constructor]). }
+    assert (Gerr : (sw2, pevs, SError) = (sw3, evs, r) ->
+              w_store (sw_w sw3) = w_store (sw_w sw2) /\ sw_phases sw3 = sw_phases sw2 /\
+              exists st', find_set (sw_sets sw3) (oi_kind (os_id m)) (oi_ns (os_id m)) (oi_name (os_id m)) = Some st' /\
+                spec_eq st' st /\ find_cond (os_conds st') CArchived = find_cond (os_conds st) CArchived /\
+                (st' = st \/ os_revision st' = os_revision m) /\ os_remotes st' = os_remotes m /\
+                (forall x, lookup_prev (sw_sets sw3) x = lookup_prev (sw_sets sw2) x) /\
+                forall (m2 : oset) pevs2, same_but_rev m2 st' -> os_revision m2 = os_revision m ->
+                  exists tl, (sw3, pevs2, SError) = (sw3, pevs2 ++ tl, r) /\
+                             Forall (quiet_sev st') tl /\ Forall (noop_sev st') tl).
+    { intros H. injection H as <- <- <-. split; [reflexivity|]. split; [reflexivity|].
+      exists st. split; [exact Hf|]. split; [apply spec_eq_refl|]. split; [reflexivity|]. split; [now left|].
+      split; [now symmetry|]. split; [reflexivity|].
+      intros m2 pevs2 _ _. exists []. rewrite app_nil_r. repeat split; constructor. }
+    destruct pr as [e| | |ctrlof failed]; cbn [loop_tail].
+    - destruct e; first [apply (Gfail RCollisionDetected)|exact Gerr].
+    - exact Gerr.
+    - apply (Gfail RPreflightError).
+    - intros H.
+      destruct (ok_replay sw2 m st ctrlof failed pevs sw3 evs r Hf (eq_sym Hrv) Hsp Hrm H)
+        as (-> & Hst & Hph & Hns & st' & Hf' & Hsp' & Hstat & Hlp & Hagain).
+      split; [exact Hst|]. split; [exact Hph|].
+      destruct (final_status_fields (sw_phases sw2) m ctrlof failed) as (_ & _ & HFrev & _ & HFrm & HFar).
+      exists st'. split; [exact Hf'|]. split; [exact Hsp'|].
+      split. { destruct Hstat as (_ & -> & _). now rewrite HFar, Hcd. }
+      split. { right. destruct Hstat as (-> & _). exact HFrev. }
+      split. { destruct Hstat as (_ & _ & _ & ->). exact HFrm. }
+      split; [exact Hlp|].
+      intros m2 pevs2 Hm2 Hrev2. destruct (Hagain m2 pevs2 Hm2 Hrev2) as (Hrun & Hq & Hn).
+      eexists. split; [exact Hrun|].
+      destruct (paused_reads_quiet st' (sw_phases sw3) m2) as [Hp1 Hp2].
+      split; (apply Forall_app; split; [assumption|constructor; [assumption|constructor]]).
+  Qed.
+  Lemma set_remotes_self m : set_remotes m (os_remotes m) = m.
+  Proof. destruct m; reflexivity. Qed.
+
+  (** ** the pass (after the revision is known) replayed on its own output world *)
+  Lemma body_go_replay sw1 mem1 st sw' evs r :
+    find_set (sw_sets sw1) (oi_kind (os_id mem1)) (oi_ns (os_id mem1)) (oi_name (os_id mem1)) = Some st ->
+    same_but_rev mem1 st ->
+    lifecycle_eqb (os_life mem1) LPaused = false ->
+    members_wf sw1 mem1 -> remotes_ready sw1 mem1 ->
+    body_go sw1 mem1 = (sw', evs, r) ->
+    exists st', find_set (sw_sets sw') (oi_kind (os_id mem1)) (oi_ns (os_id mem1)) (oi_name (os_id mem1)) = Some st' /\
+      spec_eq st' st /\ find_cond (os_conds st') CArchived = find_cond (os_conds st) CArchived /\
+      (st' = st \/ os_revision st' = os_revision mem1) /\
+      forall m2, same_but_rev m2 st' -> os_revision m2 = os_revision mem1 ->
+        exists evs2, body_go sw' m2 = (sw', evs2, r) /\ Forall (quiet_sev st') evs2 /\
+                     (r <> SError -> Forall (noop_sev st') evs2).
+  Proof.
+    intros Hf Hsb Hpa Hwf Hrr. pose proof Hsb as (Hsp & Hrv & Hcd & Hct & Hrm).
+    (* what any second in-memory copy shares with the first *)
+    assert (Htwin : forall st' m2, spec_eq st' st -> same_but_rev m2 st' -> os_revision m2 = os_revision mem1 ->
+              as_owner m2 = as_owner mem1 /\ (forall ph, desired_phase m2 ph = desired_phase mem1 ph) /\
+              map (spec_key m2) (all_objects m2) = map (spec_key mem1) (all_objects mem1) /\
+              (forall sets, lookup_prev sets m2 = lookup_prev sets mem1) /\ os_phases m2 = os_phases mem1 /\
+              os_id m2 = os_id mem1).
+    { intros st' m2 Hsp' (Hsp2 & _) Hrev2.
+      assert (Hs : spec_eq m2 mem1).
+      { eapply spec_eq_trans; [exact Hsp2|]. eapply spec_eq_trans; [exact Hsp'|]. now apply spec_eq_sym. }
+      split; [now apply as_owner_ext|]. split; [intros ph; now apply desired_phase_ext|].
+      split; [now apply spec_keys_ext|]. split; [intros sets; now apply lookup_prev_ext|].
+      destruct Hs as (Hi&_&_&_&_&_&_&Hph&_). auto. }
+    unfold body_go at 1.
+    destruct (Nat.ltb 0 (dup_count [] (map (spec_key mem1) (all_objects mem1)))) eqn:Edup.
+    - (* duplicate objects: Available=False is reported, nothing else *)
+      intros H.
+      destruct (loop_tail_replay MPreflight sw1 [] mem1 st sw' evs r Hf Hsb H)
+        as (_ & _ & st' & Hf' & Hsp' & Har & Hor & _ & _ & Hagain).
+      exists st'. split; [exact Hf'|]. split; [exact Hsp'|]. split; [exact Har|]. split; [exact Hor|].
+      intros m2 Hm2 Hrev2. destruct (Htwin st' m2 Hsp' Hm2 Hrev2) as (_ & _ & Hkeys & _).
+      destruct (Hagain m2 [] Hm2 Hrev2) as (tl & Hrun & Hq & Hn).
+      exists ([] ++ tl). unfold body_go. rewrite Hkeys, Edup. split; [exact Hrun|]. split; [exact Hq|intros _; exact Hn].
+    - assert (Hdup0 : dup_count [] (map (spec_key mem1) (all_objects mem1)) = O) by (apply Nat.ltb_ge in Edup; lia).
+      pose proof (dup_zero_nodup mem1 Hdup0) as Hnd.
+      destruct (reconcile_phases_m force sw1 mem1 (as_owner mem1) (lookup_prev (sw_sets sw1) mem1) (os_phases mem1) [] (os_remotes mem1))
+        as [[[sw2 pevs] rem] pr] eqn:Erp.
+      destruct (rpm_replay force mem1 (as_owner mem1) (lookup_prev (sw_sets sw1) mem1) (os_phases mem1) sw1 [] (os_remotes mem1)
+                  sw2 pevs rem pr Hpa Hnd Hwf Hrr Erp) as (-> & Hph2 & Hsets2 & Hnss2 & Hnext).
+      rewrite set_remotes_self. intros H.
+      assert (Hf2 : find_set (sw_sets sw2) (oi_kind (os_id mem1)) (oi_ns (os_id mem1)) (oi_name (os_id mem1)) = Some st) by now rewrite Hsets2.
+      destruct (loop_tail_replay pr sw2 pevs mem1 st sw' evs r Hf2 Hsb H)
+        as (Hst3 & Hph3 & st' & Hf' & Hsp' & Har & Hor & Hrm' & Hlp & Hagain).
+      exists st'. split; [exact Hf'|]. split; [exact Hsp'|]. split; [exact Har|]. split; [exact Hor|].
+      intros m2 Hm2 Hrev2. destruct (Htwin st' m2 Hsp' Hm2 Hrev2) as (Hown & Hdes & Hkeys & Hprev & Hphs & Hid).
+      assert (Hrm2 : os_remotes m2 = os_remotes mem1) by (destruct Hm2 as (_ & _ & _ & _ & ->); exact Hrm').
+      destruct (Hnext sw' m2) as (evs2 & Hrun & Hq & Hn).
+      { intros k _. now rewrite Hst3. }
+      { now rewrite Hph3. }
+      { exact Hdes. }
+      { now rewrite Hid. }
+      destruct (Hagain m2 evs2 Hm2 Hrev2) as (tl & Htl & Hqt & Hnt).
+      exists (evs2 ++ tl). unfold body_go. rewrite Hkeys, Edup, Hown, Hphs, Hprev, Hlp, Hsets2, Hrm2, Hrun.
+      rewrite <- Hrm2, set_remotes_self. split; [exact Htl|].
+      split; [apply Forall_app; split; [now apply quiet_lev_sev|exact Hqt]|].
+      intros Hne. apply Forall_app. split; [|exact Hnt]. apply noop_lev_sev, Hn.
+      intros ->. cbn in H. injection H as _ _ <-. now apply Hne.
+  Qed.
+End PassReplay.
